@@ -105,6 +105,10 @@ class PythonCV2XLinkLayer(LinkLayer):
                     self.receive_callback(data)
                 except NotImplementedError as e:
                     print("Error decoding packet: " + str(e))
+                except Exception as e:  # pylint: disable=broad-except
+                    # Whatever a received frame makes the upper layers raise, the frame is
+                    # dropped and reception goes on.
+                    print("Error processing packet, discarded: " + repr(e))
 
     def stop(self) -> None:
         """
